@@ -1012,6 +1012,13 @@ KEY_OF = {'S': 'student_index', 'P': 'project_index', 'L': 'lecturer_index'}
 QUOTAS = {'proj_lower_quotas': ('lq', 'P'), 'proj_upper_quotas': ('uq', 'P'), 'lec_lower_quotas': ('lq', 'L'), 'lec_upper_quotas': ('uq', 'L')}
 
 
+def not_none_guard(g, bb):
+    """g is `bb is not None` in one of its spellings (the None entries are rejected by a check of their own: none_checked)"""
+    if g[0] == 'not' and g[1][0] == 'cmp' and g[1][1] in ('Eq', 'Is') and g[1][2] == bb and g[1][3] == NONE:
+        return True
+    return g[0] == 'cmp' and g[1] in ('NotEq', 'IsNot') and g[2] == bb and g[3] == NONE
+
+
 def count_sort(t, param):
     """t = the array of assignment counts per agent of one sort, built from `param` -> sort or None"""
     if t[0] == 'call' and t[1] in (S('Counter'), A(S('collections'), 'Counter')) and len(t[2]) == 1 and t[2][0][0] == 'comp' and len(t[2][0][1]) == 1:
@@ -1028,7 +1035,7 @@ def count_sort(t, param):
         if n is not None and t[1][0] == 'bin' and C(0) in (t[1][2][1] if t[1][2][0] == 'list' else t[1][3][1]) and op == 'addidx' and val == C(1) and len(ch) == 1:
             bb, g = ch[0]
             sort = SORT_OF.get(lp.model_attr(n))
-            if sort and bb[3] == param and g == TRUE and idx == A(bb, KEY_OF[sort]):
+            if sort and bb[3] == param and (g == TRUE or not_none_guard(g, bb)) and idx == A(bb, KEY_OF[sort]):
                 return sort
             if sort and bb[3] == param and idx[0] == 'attr' and idx[1] == bb:
                 return ('BAD', 'counts per %s are incremented at pair.%s%s' % (sort, idx[2], '' if g == TRUE else ' under ' + show(g)))
@@ -1071,6 +1078,10 @@ def check_validity(rep, repo):
             return ('pair', False, [], [])
         if dom[0] == 'call' and dom[1] == S('range') and len(dom[2]) == 1 and lp.model_attr(dom[2][0]) in SORT_OF:
             return (SORT_OF[lp.model_attr(dom[2][0])], False, [], [b, ('indexof', b)])
+        if dom[0] == 'call' and dom[1] == S('range') and len(dom[2]) == 1 and dom[2][0][0] == 'call' and dom[2][0][1] == S('len') and len(dom[2][0][2]) == 1 \
+                and lp.model_attr(dom[2][0][2][0]) in QUOTAS:
+            # range(len(model.<quota vector>)): one entry per agent of that sort (the reader appends one per project / lecturer line: C10.R3)
+            return (QUOTAS[lp.model_attr(dom[2][0][2][0])][1], False, [], [b, ('indexof', b)])
         if dom[0] == 'call' and dom[1][0] == 'attr' and not dom[2] and is_counter(dom[1][1]):
             cs = count_sort(dom[1][1], param)
             if isinstance(cs, str):
